@@ -9,9 +9,8 @@ Local Close Scope Q_scope.
 (** * structure lemmas *)
 Lemma length_up_kids : forall sl : list slot, length sl = n_up sl + length (kids_of sl).
 Proof.
-  induction sl as [|[p|] sl IH]; simpl; auto.
-  - unfold n_up in *. simpl. rewrite IH. lia.
-  - unfold n_up in *. simpl. rewrite IH. lia.
+  induction sl as [|[p|] sl IH]; simpl; auto;
+    unfold n_up in *; simpl; rewrite IH; lia.
 Qed.
 
 Lemma wf_sub_tip_leaf : forall n c sl, wf_sub (UNode n c sl) = true ->
@@ -75,6 +74,9 @@ Lemma cost_unfold : forall ts n c sl x ll,
   cost ts (UNode n c sl) (LNode x ll) = cost_slots ts (cost ts) x sl ll.
 Proof. reflexivity. Qed.
 
+Definition miss (x : nat) (v : vec) : nat := 1 - nth x v 0.
+Arguments miss : simpl never.
+
 Section Hartigan.
 Variable tv : string -> vec.
 Variable ts : string -> list nat.
@@ -110,19 +112,19 @@ Definition vec_ok (v : vec) : Prop :=
 (** what a child contributes to its parent, for every state [x] of the parent *)
 Definition edge_ok (c : utree) : Prop :=
   vec_ok (U c) /\
-  (forall x lc, shape_ok c lc = true -> C c + (1 - nth x (U c) 0) <= branch_cost ts (cost ts) x c lc) /\
-  (forall x, exists lc, shape_ok c lc = true /\ branch_cost ts (cost ts) x c lc = C c + (1 - nth x (U c) 0)).
+  (forall x lc, shape_ok c lc = true -> C c + miss x (U c) <= branch_cost ts (cost ts) x c lc) /\
+  (forall x, exists lc, shape_ok c lc = true /\ branch_cost ts (cost ts) x c lc = C c + miss x (U c)).
 
 (** Hartigan's invariant at an inner node *)
 Definition node_ok (t : utree) : Prop :=
   vec_ok (U t) /\
-  (forall l, shape_ok t l = true -> C t + (1 - nth (lroot l) (U t) 0) <= cost ts t l) /\
+  (forall l, shape_ok t l = true -> C t + miss (lroot l) (U t) <= cost ts t l) /\
   (forall x, nth x (U t) 0 = 1 -> exists l, shape_ok t l = true /\ lroot l = x /\ cost ts t l = C t).
 
 Definition edge_slot (s : slot) : Prop := match s with Some (_, c) => edge_ok c | None => True end.
 
 Definition contrib (x : nat) (rs : list (vtree * nat)) : nat :=
-  fold_right (fun r acc => snd r + (1 - nth x (vroot (fst r)) 0) + acc) 0 rs.
+  fold_right (fun r acc => snd r + miss x (vroot (fst r)) + acc) 0 rs.
 
 Lemma kid_results_ok : forall sl, Forall edge_slot sl -> Forall (fun r => vec_ok (vroot (fst r))) (kid_results sl).
 Proof.
@@ -164,7 +166,7 @@ Lemma contrib_eq : forall x rs, Forall (fun r => vec_ok (vroot (fst r))) rs ->
   contrib x rs + nsum x (kvecs rs) = sumc rs + length rs.
 Proof.
   induction 1 as [|r rs Hr Hf IH]; simpl; [reflexivity|].
-  destruct Hr as [_ [H01 _]]. specialize (H01 x). lia.
+  destruct Hr as [_ [H01 _]]. specialize (H01 x). unfold miss. lia.
 Qed.
 
 Lemma kvecs_forall : forall (P : vec -> Prop) rs,
@@ -238,7 +240,7 @@ Proof.
     intros [x ll] Hs. rewrite shape_ok_unfold in Hs. rewrite cost_unfold. simpl lroot.
     pose proof (slots_LB sl ll x Hf Hs) as LB. fold rs in LB.
     pose proof (Hcontrib x) as Q. pose proof (nth_le_vmax sum x) as M.
-    rewrite HnthU.
+    unfold miss. rewrite HnthU.
     destruct (Nat.ltb x k) eqn:Ex.
     + destruct (Nat.eqb (nth x sum 0) (vmax sum)) eqn:Em.
       * lia.
@@ -259,7 +261,7 @@ Qed.
 (** ** from a node to the branch above it *)
 Lemma edge_of_node : forall c, is_leaf c = false -> node_ok c -> edge_ok c.
 Proof.
-  intros c Hl [Hv [LB UB]]. split; [exact Hv|]. split.
+  intros c Hl [Hv [LB UB]]. unfold miss in *. split; [exact Hv|]. split.
   - intros x lc Hs. unfold branch_cost. rewrite Hl.
     specialize (LB lc Hs). destruct Hv as [_ [H01 _]].
     pose proof (H01 x). pose proof (H01 (lroot lc)).
@@ -288,10 +290,10 @@ Proof.
   - rewrite HU. split; [exact L|]. split.
     + intros x. rewrite B. destruct (mem x (ts n)); lia.
     + exists y. rewrite B, Hy. reflexivity.
-  - intros x lc _. unfold branch_cost. rewrite Hl, HC, HU, B. simpl uname.
+  - intros x lc _. unfold branch_cost, miss. rewrite Hl, HC, HU, B. simpl uname.
     destruct (mem x (ts n)); lia.
   - intros x. exists (dflt (UNode n c sl)). split; [apply shape_dflt|].
-    unfold branch_cost. rewrite Hl, HC, HU, B. simpl uname.
+    unfold branch_cost, miss. rewrite Hl, HC, HU, B. simpl uname.
     destruct (mem x (ts n)); lia.
 Qed.
 
@@ -375,7 +377,7 @@ Proof.
     split; [exact Hs|]. intros l' Hs'. specialize (LB l' Hs'). lia.
   - intros [l [[Hs Hopt] Hr]]. subst x.
     destruct (UB y Hy) as [l0 [Hs0 [_ Hc0]]].
-    specialize (Hopt l0 Hs0). specialize (LB l Hs). pose proof (H01 (lroot l)). lia.
+    specialize (Hopt l0 Hs0). specialize (LB l Hs). pose proof (H01 (lroot l)). unfold miss in LB. lia.
 Qed.
 
 End Hartigan.
